@@ -397,6 +397,10 @@ def closure_and_bound(facts, res, fns):
         tbf.link_parents(body)
         # level loop
         lvl = [f for f in walk(body) if f.get("k") == "ForStmt" and fm.is_level_loop(f)]
+        # only the loops that derive a level from the one below (they append parent indices); a loop over the levels that reads the finished
+        # groups (filling a directory, counting) builds nothing
+        lvl = [f for f in lvl if any(c.get("k") in ("CallExpr", "CXXMemberCallExpr") and tbf.callee_name(c) in ("push_back", "emplace_back") and len(tbf.call_args(c)) == 1
+                                     and "getParentIndex" in fm.origin(tbf.call_args(c)[0]) for c in walk(f))] or lvl
         if len(lvl) == 2:
             # the grouping-mode test hoisted out of the level loop: one level loop per mode, on the two sides of one branch
             anc0 = [a_ for a_ in tbf.ancestors(lvl[0]) if a_.get("k") == "IfStmt"]
